@@ -83,6 +83,9 @@ template <class F> static inline void for_each_block_mut(Json &st, F fn) {
 template <class F> static inline void walk(const Json &body, F fn) {  // fn(stmt) for every statement, depth first
   for (auto &st : body.a) { fn(st); for_each_block(st, [&](const Json &b) { walk(b, fn); }); }
 }
+// result kind Q: two i64 results (value, value ^ 23130); callers fold the pair back into the value, so the model is unchanged
+static inline std::string mir_res(char rt) { return rt == 'Q' ? std::string("i64, i64") : std::string(mir_ty(rt)); }
+static inline bool prog_has_two_results(const Json &prog) { for (auto &m : prog.at("mods").a) for (auto &f : m.at("funcs").a) if (rt_of(f) == 'Q') return true; return false; }
 static inline std::string mir_param(char c, const std::string &name) { if (const BlkInfo *b = blk_info(c)) return S("%s:%d(%s)", b->mir, b->size, name.c_str()); return std::string(mir_ty(c)) + ":" + name; }
 static const char *C_BLK_DECLS = "struct dsl_bS { long long x; }; struct dsl_bT { long long x, y; }; struct dsl_bP { double x, y; }; struct dsl_bM { long long x; double y; }; struct dsl_bN { double x; long long y; }; struct dsl_bG { long long x, y, z; }; struct dsl_bQ { double x; }; struct dsl_bH { long long x, y, z, w; };\n";
 static inline std::string proto_name(const std::string &ps, char rt) { return std::string("p_") + rt + "_" + ps; }
@@ -112,6 +115,7 @@ struct MirEmitter {
     insn("add t2, t2, " + std::to_string((long long) fn->geti("salt")));
     char rt = rt_of(*fn);
     if (rt == 'q') { insn("ret t2"); return; }
+    if (rt == 'Q') { insn("xor t3, t2, 23130"); insn("ret t2, t3"); return; }
     insn("and t2, t2, " + std::to_string((long long) rt_mask(rt)));
     insn(rt == 'd' ? "i2d rd, t2" : rt == 'f' ? "i2f rf, t2" : "i2ld rl, t2");
     insn(rt == 'd' ? "ret rd" : rt == 'f' ? "ret rf" : "ret rl");
@@ -119,7 +123,7 @@ struct MirEmitter {
   void emit_call(const std::string &target, const std::string &dst, const std::string &callee, const Json &args) {
     auto it = sigs->find(callee); const std::string ps = it->second.ps.empty() ? default_ps(it->second.na, it->second.nd) : it->second.ps; char rt = it->second.rt;  // (hand-made signatures may carry counts only)
     protos.insert({ps, rt});
-    std::string s = "call " + proto_name(ps, rt) + ", " + target + ", " + (rt == 'q' ? dst : rt == 'd' ? std::string("rd") : rt == 'f' ? std::string("rf") : std::string("rl"));
+    std::string s = "call " + proto_name(ps, rt) + ", " + target + ", " + (rt == 'q' ? dst : rt == 'Q' ? dst + ", t3" : rt == 'd' ? std::string("rd") : rt == 'f' ? std::string("rf") : std::string("rl"));
     int ai = 0, di = 0, bi = 0;
     for (char c : ps) {
       if (const BlkInfo *b = blk_info(c)) {  // build the aggregate in this function's block area and pass it by value
@@ -135,7 +139,8 @@ struct MirEmitter {
       else { s += S(", %d.0%s", 2 + di, c == 'f' ? "f" : c == 'l' ? "l" : ""); di++; }
     }
     insn(s);
-    if (rt != 'q') insn((rt == 'd' ? "d2i " : rt == 'f' ? "f2i " : "ld2i ") + dst + (rt == 'd' ? ", rd" : rt == 'f' ? ", rf" : ", rl"));
+    if (rt == 'Q') { insn("xor t3, t3, " + dst); insn("xor t3, t3, 23130"); insn("mul t3, t3, 3"); insn("add " + dst + ", " + dst + ", t3"); }  // 0 when the second result is the first ^ 23130
+    else if (rt != 'q') insn((rt == 'd' ? "d2i " : rt == 'f' ? "f2i " : "ld2i ") + dst + (rt == 'd' ? ", rd" : rt == 'f' ? ", rf" : ", rl"));
   }
   // targets of computed gotos start with an external call: blocks that the optimizer can empty completely make the
   // generated laddr/jmpi code jump to 0 at the pinned commit (a program-level generator defect, see DESIGN)
@@ -224,7 +229,7 @@ struct MirEmitter {
   std::string func(const Json &f) {
     fn = &f; fname = f.gets("name"); out.clear(); pend.clear(); lab = 0; loop_depth = 0; uses_mem = false; uses_blk = false;
     std::string ps = ps_of(f); char rt = rt_of(f);
-    std::string head = fname + ":\tfunc " + mir_ty(rt);
+    std::string head = fname + ":\tfunc " + mir_res(rt);
     { int ai = 0, di = 0; for (char c : ps) { if (int_kind(c)) head += ", " + mir_param(c, S("a%d", ai++)); else head += S(", %s:d%d", mir_ty(c), di++); } }
     stmts(f.at("body"));
     if (!pend.empty()) ret_block(Json(0));
@@ -242,7 +247,7 @@ struct MirEmitter {
     if (f.geti("fuel")) { std::string ls = newlab(); insn("bgt " + ls + ", a0, 0"); ret_block(Json(7)); label(ls); insn("mov t2, t2"); }
     std::string pro = out; out.clear();
     if (f.geti("gv")) { head += "\n\tglobal i64:gvr:r8"; pro = "\tmov gvr, " + std::to_string((long long) f.geti("gv")) + "\n" + pro + "\tadd v0, v0, gvr\n"; }
-    return head + "\n\tlocal i64:x1, i64:x2, i64:x3, d:fd0, d:fd1, f:ff0, ld:fl0, d:rd, f:rf, ld:rl, i64:v0, i64:v1, i64:v2, i64:v3, i64:v4, i64:v5, i64:t0, i64:t1, i64:t2, i64:p, i64:buf, i64:bbuf, i64:pb0, i64:pb1, i64:pb2, i64:lc0, i64:lc1, i64:lc2\n" + pro + body_txt + "\tendfunc\n";
+    return head + "\n\tlocal i64:x1, i64:x2, i64:x3, d:fd0, d:fd1, f:ff0, ld:fl0, d:rd, f:rf, ld:rl, i64:v0, i64:v1, i64:v2, i64:v3, i64:v4, i64:v5, i64:t0, i64:t1, i64:t2, i64:t3, i64:p, i64:buf, i64:bbuf, i64:pb0, i64:pb1, i64:pb2, i64:lc0, i64:lc1, i64:lc2\n" + pro + body_txt + "\tendfunc\n";
   }
   // whole module; `all` maps every function name of the *program* to its signature
   std::string module(const Json &m, const std::map<std::string, FuncInfo> &all) {
@@ -271,7 +276,7 @@ struct MirEmitter {
     for (auto &i : imports) r += "\timport " + i + "\n";
     if (!fwd_first) for (auto &f : m.at("funcs").a) if (need_fwd.count(f.gets("name"))) r += "\tforward " + f.gets("name") + "\n";
     for (auto &l : all_lrefs) r += "\tforward " + l.first + "\n";
-    for (auto &p : protos) { r += proto_name(p.first, p.second) + ":\tproto " + mir_ty(p.second); int ai = 0, di = 0; for (char c : p.first) { if (int_kind(c)) r += ", " + mir_param(c, S("a%d", ai++)); else r += S(", %s:d%d", mir_ty(c), di++); } r += "\n"; }
+    for (auto &p : protos) { r += proto_name(p.first, p.second) + ":\tproto " + mir_res(p.second); int ai = 0, di = 0; for (char c : p.first) { if (int_kind(c)) r += ", " + mir_param(c, S("a%d", ai++)); else r += S(", %s:d%d", mir_ty(c), di++); } r += "\n"; }
     if (uses_extm) r += "p_extm:\tproto i64, i64:t, f:x, ld:y, i32:n, d:z, u8:b, ld:w, i64:s, f:x2, i16:h, i64:p, u32:q, i64:last\n";
     if (uses_ext) r += "p_ext:\tproto i64, i64:t, i64:v\n";
     for (int n : extn_sizes) { r += S("p_extn_%d:\tproto i64, i64:n", n); for (int i = 1; i <= n; i++) r += S(", i64:a%d", i); r += "\n"; }
@@ -492,7 +497,7 @@ struct Model {
 // ------------------------------------------------------------------------------------------------ generator
 struct GenOpts {
   int nmods = 2, nfuncs = 3, body = 6; bool lref = true, jt = true, icall = true, ext = true, mem = true, loops = true, doubles = true, recursion = true, sw = true;
-  int max_na = 8; int sw_weight = 8; bool blocked = false, wide = false; bool gvar = true, fpbranch = true, ldiff = true, extn = false, typed = false, extm = false, blocks = false, fcmp = false;
+  int max_na = 8; int sw_weight = 8; bool blocked = false, wide = false; bool gvar = true, fpbranch = true, ldiff = true, extn = false, typed = false, extm = false, blocks = false, fcmp = false, two_results = false;
 };
 struct Generator {
   Rng &r; GenOpts o; std::vector<FuncInfo> fs; int cur = 0; int depth = 0; bool in_loop = false;
@@ -572,7 +577,7 @@ struct Generator {
         for (int k = 0; k < fi.nd; k++) fps += fk[r.below(4)];
         if (stacky && (fi.nd < 9 || r.coin())) fps[fps.size() - 1] = 'l';   // (with more than 8 floating-point parameters the overflow may also be floats and doubles only)
         size_t a = 0, b = 0; while (a < ints.size() || b < fps.size()) { bool ti = b >= fps.size() || (a < ints.size() && r.coin()); if (a == 0 && fi.fuel) ti = true; if (stacky && b + 1 == fps.size() && a < ints.size()) ti = true; fi.ps += ti ? ints[a++] : fps[b++]; }  // (stacky: the last long double comes after all integers)
-        if (r.chance(1, 3)) fi.rt = "dfl"[r.below(3)];
+        if (r.chance(1, 3)) fi.rt = "dflQQ"[r.below(o.two_results ? 5 : 3)];
       }
       if (o.gvar && fi.na <= 4 && r.chance(1, 6)) fi.gv = (int) r.range(1, 90);  // a variable tied to hard register r8 (free when at most 4 integer parameters)
       fs.push_back(fi); }
